@@ -1233,4 +1233,166 @@ theorem fusion_where_core (F n n1 : Nat) (s p0 fb gb : Q) (x y z : String)
   have k2 := resolve_subst_fresh gb y (argName n1) z (.var (argName n1)) (.var z) hgb hfa.2 hfz.2 (by simp [resolve, idx])
   simp [Q.call, resolve, resolveL, k1, k2]
 
+
+/-! ### the wire format forgets tuple vs list: a translator that does not tell them apart is unaffected -/
+
+/-- the handlers do not tell the two tags apart -/
+def SameTag {ρ σ} (alg : Alg ρ σ) (t t' : String) : Prop :=
+  (∀ done s, alg.pre t done s = alg.pre t' done s) ∧
+  (∀ done n s, alg.enter t done n s = alg.enter t' done n s) ∧
+  (∀ vs s, alg.post t vs s = alg.post t' vs s)
+
+theorem SameTag.symm' {ρ σ} {alg : Alg ρ σ} {t t' : String} (h : SameTag alg t t') : SameTag alg t' t :=
+  ⟨fun d s => (h.1 d s).symm, fun d n s => (h.2.1 d n s).symm, fun v s => (h.2.2 v s).symm⟩
+
+section wire
+variable {ρ σ : Type} (alg : Alg ρ σ)
+
+theorem evalKids_sameTag (st : Stack ρ) (t t' : String) (h : SameTag alg t t') :
+    ∀ (ks : List Q) (done : List ρ) (s : σ), evalKids alg st t done ks s = evalKids alg st t' done ks s := by
+  intro ks
+  induction ks with
+  | nil => intro done s; simp [evalKids]
+  | cons k ks ih =>
+    intro done s
+    cases k with
+    | lam ps b =>
+      simp only [evalKids, h.2.1]
+      cases alg.enter t' done ps.length s with
+      | error e => rfl
+      | ok r =>
+        obtain ⟨vals, s1⟩ := r
+        simp only []
+        split
+        · cases eval alg (ps.zip vals :: st) b s1 with
+          | error e => rfl
+          | ok r2 => obtain ⟨v, s2⟩ := r2; simp only [ih]
+        · rfl
+    | var x => simp only [evalKids, h.1]; cases alg.pre t' done s <;> simp only []; rename_i s0; cases eval alg st (.var x) s0 <;> simp only []; rename_i r; simp only [ih]
+    | lit c => simp only [evalKids, h.1]; cases alg.pre t' done s <;> simp only []; rename_i s0; cases eval alg st (.lit c) s0 <;> simp only []; rename_i r; simp only [ih]
+    | app f as => simp only [evalKids, h.1]; cases alg.pre t' done s <;> simp only []; rename_i s0; cases eval alg st (.app f as) s0 <;> simp only []; rename_i r; simp only [ih]
+    | node u us => simp only [evalKids, h.1]; cases alg.pre t' done s <;> simp only []; rename_i s0; cases eval alg st (.node u us) s0 <;> simp only []; rename_i r; simp only [ih]
+
+theorem finish_sameTag (t t' : String) (h : SameTag alg t t') (r : Except String (List ρ × σ)) :
+    finish alg t r = finish alg t' r := by
+  cases r with
+  | error e => rfl
+  | ok p => obtain ⟨vs, s⟩ := p; simp [finish, h.2.2]
+
+variable (h1 : SameTag alg "tuple" "list") (h2 : SameTag alg ("method:" ++ "tuple") ("method:" ++ "list"))
+include h1 h2
+
+mutual
+theorem eval_wire : ∀ (q : Q) (st : Stack ρ) (s : σ), eval alg st (wireNorm q) s = eval alg st q s
+  | .var x, st, s => by simp [wireNorm]
+  | .lit c, st, s => by simp [wireNorm]
+  | .lam ps b, st, s => by simp [wireNorm, eval]
+  | .app (.var f) as, st, s => by
+    simp only [wireNorm, eval, evalKids_wire as st]
+  | .app (.node t ks) as, st, s => by
+    simp only [wireNorm, eval]
+    by_cases ht : t = "tuple"
+    · subst ht
+      simp only [beq_self_eq_true, if_true]
+      rw [evalKids_sameTag alg st _ _ h2.symm', evalKids_wire ks st]
+      cases evalKids alg st ("method:" ++ "tuple") [] ks s with
+      | error e => rfl
+      | ok r =>
+        obtain ⟨vs, s1⟩ := r
+        simp only []
+        rw [evalKids_sameTag alg st _ _ h2.symm', evalKids_wire as st, finish_sameTag alg _ _ h2.symm']
+    · have : (t == "tuple") = false := by simpa using ht
+      simp only [this, Bool.false_eq_true, if_false, evalKids_wire ks st]
+      cases evalKids alg st ("method:" ++ t) [] ks s with
+      | error e => rfl
+      | ok r => obtain ⟨vs, s1⟩ := r; simp only [evalKids_wire as st]
+  | .app (.lam ps b) as, st, s => by simp [wireNorm, eval]
+  | .app (.lit c) as, st, s => by
+    simp only [wireNorm, eval]
+    cases alg.pre "dyn" [] s with
+    | error e => rfl
+    | ok s0 =>
+      simp only []
+      cases alg.lit c s0 with
+      | error e => rfl
+      | ok r => obtain ⟨v, s1⟩ := r; simp only [evalKids_wire as st]
+  | .app (.app g bs) as, st, s => by
+    have := eval_wire (.app g bs) st
+    simp only [wireNorm] at this
+    simp only [wireNorm, eval]
+    cases alg.pre "dyn" [] s with
+    | error e => rfl
+    | ok s0 =>
+      simp only [this]
+      cases eval alg st (.app g bs) s0 with
+      | error e => rfl
+      | ok r => obtain ⟨v, s1⟩ := r; simp only [evalKids_wire as st]
+  | .node t ks, st, s => by
+    simp only [wireNorm, eval]
+    by_cases ht : t = "tuple"
+    · subst ht
+      simp only [beq_self_eq_true, if_true]
+      rw [evalKids_sameTag alg st _ _ h1.symm', evalKids_wire ks st, finish_sameTag alg _ _ h1.symm']
+    · have : (t == "tuple") = false := by simpa using ht
+      simp only [this, Bool.false_eq_true, if_false, evalKids_wire ks st]
+theorem evalKids_wire : ∀ (ks : List Q) (st : Stack ρ) (tag : String) (done : List ρ) (s : σ),
+    evalKids alg st tag done (wireNormL ks) s = evalKids alg st tag done ks s
+  | [], st, tag, done, s => by simp [wireNormL]
+  | .lam ps b :: rest, st, tag, done, s => by
+    simp only [wireNormL, wireNorm, evalKids]
+    cases alg.enter tag done ps.length s with
+    | error e => rfl
+    | ok r =>
+      obtain ⟨vals, s1⟩ := r
+      simp only []
+      split
+      · rw [eval_wire b]
+        cases eval alg (ps.zip vals :: st) b s1 with
+        | error e => rfl
+        | ok r2 => obtain ⟨v, s2⟩ := r2; simp only [evalKids_wire rest st]
+      · rfl
+  | .var x :: rest, st, tag, done, s => by
+    simp only [wireNormL, wireNorm, evalKids]
+    cases alg.pre tag done s with
+    | error e => rfl
+    | ok s0 =>
+      simp only []
+      cases eval alg st (.var x) s0 with
+      | error e => rfl
+      | ok r => obtain ⟨v, s1⟩ := r; simp only [evalKids_wire rest st]
+  | .lit c :: rest, st, tag, done, s => by
+    simp only [wireNormL, wireNorm, evalKids]
+    cases alg.pre tag done s with
+    | error e => rfl
+    | ok s0 =>
+      simp only []
+      cases eval alg st (.lit c) s0 with
+      | error e => rfl
+      | ok r => obtain ⟨v, s1⟩ := r; simp only [evalKids_wire rest st]
+  | .app f as :: rest, st, tag, done, s => by
+    have hw := eval_wire (.app f as) st
+    simp only [wireNorm] at hw
+    simp only [wireNormL, wireNorm, evalKids]
+    cases alg.pre tag done s with
+    | error e => rfl
+    | ok s0 =>
+      simp only [hw]
+      cases eval alg st (.app f as) s0 with
+      | error e => rfl
+      | ok r => obtain ⟨v, s1⟩ := r; simp only [evalKids_wire rest st]
+  | .node t ks :: rest, st, tag, done, s => by
+    have hw := eval_wire (.node t ks) st
+    simp only [wireNorm] at hw
+    simp only [wireNormL, wireNorm, evalKids]
+    cases alg.pre tag done s with
+    | error e => rfl
+    | ok s0 =>
+      simp only [hw]
+      cases eval alg st (.node t ks) s0 with
+      | error e => rfl
+      | ok r => obtain ⟨v, s1⟩ := r; simp only [evalKids_wire rest st]
+end
+
+end wire
+
 end FaxVerif.C08
